@@ -7,7 +7,7 @@ lines (never from the code under test): see DESIGN.md section 7, C05.
 
 import copy
 
-from common import (V, E3_METHODS, E3_NAMES, E3_CANON, EXC_ALL, EXC_SERIAL, IGNORED_NAMES, CMD_TEXTS, QRY_TEXTS,
+from common import (V, pair_faults, E3_METHODS, E3_NAMES, E3_CANON, EXC_ALL, EXC_SERIAL, IGNORED_NAMES, CMD_TEXTS, QRY_TEXTS,
                     failish, req_name, decorate, wrong_line, simple_world, mk_ops, call, discover,
                     single_faults, with_faults, reply_fault)
 
@@ -105,6 +105,18 @@ def expected_value(m, a, k, st):
     return False, None
 
 
+def needs_request(m, a, k):
+    """Does this call, on a connected error-free object, have a request to transmit at all?"""
+    if m == 'timed_pause':
+        n = a[0] if a else k.get('pause_time', 0)
+        return isinstance(n, int) and n >= 1
+    if m in ('command', 'query'):
+        return bool(a and isinstance(a[0], str) and a[0].strip())
+    if m == 'write_nickname':
+        return bool(a and isinstance(a[0], str))
+    return True
+
+
 def check(scn, hist):
     out = []
     if hist.hang:
@@ -144,7 +156,9 @@ def check(scn, hist):
             other = {p: w for p, w in rec['wire'].items() if p != b['port'] and w}
             if other:
                 out.append(V(PROP, 'wire', m, oid, 'bytes on another port: %r' % other))
-            if got != want and not (write_faulted and got == ''):
+            # a write that raises may have been preceded by another write of the same request (a request
+            # handed over in two pieces): what did get out must then be a prefix of the request
+            if got != want and not (write_faulted and want.startswith(got)):
                 out.append(V(PROP, 'wire', m, oid, 'sent %r, expected %r' % (got, want)))
                 continue
         # --- 3. read budget per request
@@ -205,6 +219,9 @@ def check(scn, hist):
                                                                          a_['err'])))
             continue
         st = board_before(hist, i, b['port'])
+        if not rec['requests'] and needs_request(m, args, kw) and not raised_here:
+            out.append(V(PROP, 'wire', m, oid, 'the call returned %r without transmitting its request' % (rec['ret'],)))
+            continue
         if m == 'query' and text is not None:
             if not rec['requests']:
                 out.append(V(PROP, 'wire', m, oid, 'no request reached the board'))
@@ -216,18 +233,20 @@ def check(scn, hist):
                 out.append(V(PROP, 'query_payload', m, oid, 'reply %r: returned %r, expected %r'
                              % (line, rec['ret'], want)))
         elif m == 'query_statusbyte':
-            want = specs[b['port']].get('status', 0x3E)
+            want = st['status'] if st is not None else specs[b['port']].get('status', 0x3E)
             if rec['ret'] != want:
                 out.append(V(PROP, 'attribution', m, oid, 'returned %r, board status %r' % (rec['ret'], want)))
         elif m == 'query_voltage':
             thr = args[0] if args and args[0] is not None else kw.get('threshold')
             thr = 250 if thr is None else thr
-            want = specs[b['port']].get('voltage', 300) >= thr
+            want = (st['voltage'] if st is not None else specs[b['port']].get('voltage', 300)) >= thr
             if rec['ret'] is not want:
                 out.append(V(PROP, 'attribution', m, oid, 'returned %r, expected %r' % (rec['ret'], want)))
         elif m == 'query_current':
             sp = specs[b['port']]
             want = {'tuple': [sp.get('current', 512), sp.get('voltage', 300)]}
+            if st is not None:
+                want = {'tuple': [st['current'], st['voltage']]}
             if rec['ret'] != want:
                 out.append(V(PROP, 'attribution', m, oid, 'returned %r, expected %r' % (rec['ret'], want)))
         elif st is not None:
@@ -286,10 +305,58 @@ def sweep_cells(tier):
     for m in E3_NAMES:
         for ci in range(len(E3_CANON[m])):
             cells.append([m, ci])
+    cells.append(['_history', 0])
     return cells
 
 
+def history_scenarios():
+    """Short multi-step histories in which state kept by the host side would show: the same request twice
+    with the board's answer changing in between, and a second object failing after a first one has."""
+    import random
+    world = simple_world(random.Random('c05-hist'), fw=(3, 0, 2), style='linux')
+    port = world['boards'][0]['port']
+
+    def setenv(**st):
+        return {'op': 'env', 'what': 'set', 'port': port, 'state': st}
+    ram2 = list(range(100, 132))
+    seqs = [
+        [call(0, 'query_current'), setenv(voltage=111, current=222), call(0, 'query_current'),
+         call(0, 'query_voltage', [250]), setenv(voltage=900, current=5), call(0, 'query_voltage', [250]),
+         call(0, 'query_current')],
+        [call(0, 'var_write', [7, 3]), call(0, 'var_read', [3]), setenv(ram=ram2), call(0, 'var_read', [3]),
+         call(0, 'var_read_int32', [2]), call(0, 'var_write_int32', [-2, 2]), setenv(ram=ram2),
+         call(0, 'var_read_int32', [2])],
+        [call(0, 'query_statusbyte'), setenv(status=0x81), call(0, 'query_statusbyte'), call(0, 'query_steps'),
+         setenv(steps=[5, -6]), call(0, 'query_steps'), call(0, 'motors_query_enabled'),
+         setenv(en1=1, en2=0, mode=3), call(0, 'motors_query_enabled'), call(0, 'dio_b_read', [2]),
+         setenv(pins={'B2': 1}), call(0, 'dio_b_read', [2])],
+        [call(0, 'query', ['QL,4']), setenv(ram=ram2), call(0, 'query', ['QL,4']), call(0, 'query', [' QL,4 '])],
+    ]
+    for seq in seqs:
+        ops = mk_ops([{'op': 'new', 'obj': 0}, call(0, 'connect')] + [dict(o) for o in seq])
+        yield {'prop': PROP, 'world': world, 'ops': ops, 'faults': {}}
+    # a second object must record its own failure although another object failed before it
+    for kind in ('drop', 'err_bang', 'stale_instead', 'raise'):
+        for m2, a2 in (('command', ['SM,10,1,1']), ('query', ['QS']), ('var_write', [1, 2]), ('query_voltage', [])):
+            ops = mk_ops([{'op': 'new', 'obj': 0}, call(0, 'connect'), call(0, 'command', ['CS']),
+                          call(0, 'disconnect'), {'op': 'new', 'obj': 1}, call(1, 'connect'), call(1, m2, a2)])
+            scn = {'prop': PROP, 'world': world, 'ops': ops, 'faults': {}}
+            f = {}
+            for oid in (2, 6):
+                if kind == 'raise':
+                    f.setdefault('io', []).append({'at': [oid, 2], 'kind': 'raise', 'exc': 'SerialException'})
+                else:
+                    name = req_name(['CS', a2[0] if m2 in ('command', 'query') else
+                                     {'var_write': 'SL', 'query_voltage': 'QC'}.get(m2, 'X')][oid == 6])
+                    f.setdefault('reply', []).append(reply_fault(oid, 1, kind, name))
+            yield with_faults(scn, f)
+
+
 def sweep_expand(cell):
+    if cell[0] == '_history':
+        for scn in history_scenarios():
+            yield scn
+        return
     m, ci = cell
     a, k = E3_CANON[m][ci]
     base = base_scenario(m, a, k)
@@ -301,6 +368,10 @@ def sweep_expand(cell):
                                      reply_kinds=['drop', 'drop_request', 'err_bang', 'err_named', 'stale_instead',
                                                   'stale_hex', 'stale_front', 'late26', 'd25', 'd1']):
         yield with_faults(base, faults)
+    # two faults in one call: empty reads inside the budget, then an exception / unplug at any later I/O
+    if m not in SERIAL_ONLY:
+        for faults in pair_faults(base, 3):
+            yield with_faults(base, faults)
 
 
 # ---------------------------------------------------------------------------
@@ -333,6 +404,10 @@ def gen(rng, idx):
         ops.append(call(ep, 'connect'))
         n = rng.randint(1, 8)
         for j in range(n):
+            if rng.random() < 0.12:
+                ops.append({'op': 'env', 'what': 'set', 'port': world['boards'][0]['port'],
+                            'state': {'voltage': rng.choice([0, 100, 249, 250, 251, 300, 1023]),
+                                      'current': rng.randint(0, 1023), 'status': rng.randint(0, 255)}})
             op = gen_request(rng)
             op['obj'] = ep
             if op['m'] in ('reboot', 'bootload') or (op['m'] == 'command' and
